@@ -1036,6 +1036,10 @@ fn run(v: &Value) -> Result<String, String> {
             // route and every parser / stream reader, over boundary header values, payload sizes 0..3 and 70,
             // capacity relations, chunked sinks, truncation at every byte position and structured mutations.
             use std::io::{Read as _, Write as _};
+            // buffers REUSED across every read of the sweep (larger frame then smaller, failed partial read then a fresh stream):
+            // whatever an earlier read left behind must not show in a later result
+            let mut reuse_sync: Vec<u8> = Vec::new();
+            let mut reuse_async: Vec<u8> = Vec::new();
             fn oracle_header(h: &repe::Header) -> Vec<u8> {
                 let mut o = Vec::new();
                 o.extend_from_slice(&h.length.to_le_bytes());
@@ -1064,6 +1068,19 @@ fn run(v: &Value) -> Result<String, String> {
             struct Chunky { out: Vec<u8>, max: usize }
             impl std::io::Write for Chunky {
                 fn write(&mut self, b: &[u8]) -> std::io::Result<usize> { let n = b.len().min(self.max); self.out.extend_from_slice(&b[..n]); Ok(n) }
+                fn flush(&mut self) -> std::io::Result<()> { Ok(()) }
+            }
+            // a sink with a real gather write: one call takes up to `max` bytes ACROSS the offered slices (a short vectored write
+            // may end inside the header, exactly between two parts, or inside the query or the body)
+            struct Gather { out: Vec<u8>, max: usize }
+            impl std::io::Write for Gather {
+                fn write(&mut self, b: &[u8]) -> std::io::Result<usize> { let n = b.len().min(self.max); self.out.extend_from_slice(&b[..n]); Ok(n) }
+                fn write_vectored(&mut self, bufs: &[std::io::IoSlice<'_>]) -> std::io::Result<usize> {
+                    let mut left = self.max;
+                    let mut n = 0;
+                    for b in bufs { let k = b.len().min(left); self.out.extend_from_slice(&b[..k]); left -= k; n += k; if left == 0 { break; } }
+                    Ok(n)
+                }
                 fn flush(&mut self) -> std::io::Result<()> { Ok(()) }
             }
             struct Chunked<'a> { data: &'a [u8], pos: usize, step: usize }
@@ -1115,6 +1132,17 @@ fn run(v: &Value) -> Result<String, String> {
                             repe::write_message_streaming(&mut s3, h, &q, bl as u64, |w| w.write_all(&b)).map_err(|e| e.to_string())?;
                             if s1.out != expect || s2.out != expect || s3.out != expect {
                                 return Err(format!("an emission route differs from to_vec on a sink accepting {max} bytes per write (q={ql}, b={bl}): write_to {} bytes, write_message {} bytes, streaming {} bytes, expected {}", s1.out.len(), s2.out.len(), s3.out.len(), expect.len()));
+                            }
+                        }
+                        for max in [1usize, 7, 47, 48, 49, 48 + ql, 48 + ql + 1, (48 + ql + bl).saturating_sub(1).max(1), 48 + ql + bl] {
+                            let mut s1 = Gather { out: Vec::new(), max };
+                            m.write_to(&mut s1).map_err(|e| e.to_string())?;
+                            let mut s2 = Gather { out: Vec::new(), max };
+                            repe::write_message(&mut s2, &m).map_err(|e| e.to_string())?;
+                            let mut s3 = Gather { out: Vec::new(), max };
+                            repe::write_message_streaming(&mut s3, h, &q, bl as u64, |w| w.write_all(&b)).map_err(|e| e.to_string())?;
+                            if s1.out != expect || s2.out != expect || s3.out != expect {
+                                return Err(format!("an emission route differs from to_vec on a gather-writing sink accepting {max} bytes per call (q={ql}, b={bl}): write_to {} bytes, write_message {} bytes, streaming {} bytes, expected {}", s1.out.len(), s2.out.len(), s3.out.len(), expect.len()));
                             }
                         }
                         // the numeric-slice writers: whatever the incoming header says, the frame is the builder's frame for the same slice
@@ -1175,6 +1203,15 @@ fn run(v: &Value) -> Result<String, String> {
                                     }
                                     if whole && (r1.unwrap().to_vec() != expect || into != expect || r3.unwrap().to_vec() != expect || into2 != expect) {
                                         return Err("a stream reader returned bytes that differ from the stream".into());
+                                    }
+                                    let prev = (reuse_sync.len(), reuse_async.len());
+                                    let r5 = repe::read_message_into(&mut Chunked { data: &buf, pos: 0, step }, &mut reuse_sync);
+                                    let r6 = rt.block_on(repe::async_io::read_message_into_async(&mut &buf[..], &mut reuse_async));
+                                    if r5.is_ok() != whole || r6.is_ok() != whole {
+                                        return Err(format!("a stream reader handed a REUSED buffer (previous contents {} / {} bytes) answers differently on a stream cut at byte {cut} of {}: read_message_into {:?}, into_async {:?} (Ok expected: {whole})", prev.0, prev.1, expect.len(), r5.is_ok(), r6.is_ok()));
+                                    }
+                                    if whole && (reuse_sync != expect || reuse_async != expect) {
+                                        return Err(format!("a stream reader handed a REUSED buffer (previous contents {} / {} bytes) returned {} / {} bytes that are not the {}-byte frame on the stream", prev.0, prev.1, reuse_sync.len(), reuse_async.len(), expect.len()));
                                     }
                                 }
                             }
